@@ -9,7 +9,7 @@ from ..kinds import KindAnalysis, node_containing
 from ..lexmodel import LexModel
 from ..model import AnalysisError, attr_chain, is_self_attr, norm, short, walk_local
 from ..pmodel import ParserModel
-from ..report import Ctx
+from ..report import Ctx, SubCtx
 from .. import balanced
 from ..tokbuf import FillModel
 from ..vmodel import VisitorModel
@@ -168,6 +168,8 @@ def run(ctx: Ctx) -> None:
                node=n.stmt, mod=mod)
     ctx.ob("R6.1m", "parser:CxxParser.parse|errors raised by the loop itself", True, node=pfn, mod=mod, nontrivial=False, detail={"raise statements in the try body": n_raise})
 
+    if isinstance(ctx, SubCtx) and set(ctx._map) <= {"R6.1m", "R6.1"}:
+        return  # evaluated for another property that shares only the rules above
     # ---------------------------------------------------------------- R6.2
     ctx.rule("R6.2", "every token that can reach the error handler carries a location", minimum=3)
     stamp = [f for f in fm.linear() if f[0] == "stamp"]
@@ -398,6 +400,12 @@ def run(ctx: Ctx) -> None:
     # (no counter at all -- the skipper written with a step table, say -- leaves nothing to report here; the skipper
     # itself is decided by interpretation under C13)
 
+    # ---------------------------------------------------------------- R6.11
+    # "specifiers that are not allowed where they appear are rejected": validate() can only reject what the type parser
+    # recorded.  That every specifier token consumed by its loop leaves a trace is C01's R1.13, evaluated here under this id.
+    from .c01 import check_specifier_arms as _csa
+    _csa(ctx, "R6.11", pm)
+
     # ---------------------------------------------------------------- R6.7
     # "unprocessed preprocessor conditionals or defines ... are rejected": a directive can only be rejected if the lexer
     # rule that matches it does not silently drop it; which rule functions may finish without a token is C08's R8.1,
@@ -411,7 +419,7 @@ def run(ctx: Ctx) -> None:
     # re-basing arithmetic of the '#line' branch is what makes the reported number the
     # directive's; the rule is C10's R10.3, evaluated here under this property's id.
     from . import c10
-    from ..report import SubCtx, run_shared
+    from ..report import run_shared
     run_shared(ctx, c10.run, {"R10.3": ("R6.6", "#line re-basing: line_offset = physical lineno - N + 1, file name from the same match (so an error after a #line directive names the directive's file and line)")})
 
 def _validate_after_parse_type(ctx: Ctx, pm: ParserModel) -> None:
